@@ -334,6 +334,14 @@ def compare_signature(s, rec, oracle_results, oracles, acc):
     viol = []
     text = sig_text(s)
     # ---- oracle agreement ----
+    # 4- and 8-byte generic vectors do not exist in MSVC (only __m64 does): for the Windows-only conventions, where clang is the
+    # single oracle, what clang does with them is not a platform ABI -> no verdict (DESIGN "Limits": exotic combinations)
+    if len(oracles) == 1 and "win" in oracles[0].name:
+        for t in list(args) + [ret]:
+            if t != "void" and ap.type_class(t) in ("v32", "v64"):
+                acc["ambiguous"] += 1
+                acc["ambiguous_by_type"]["exotic:" + ap.type_class(t)] = acc["ambiguous_by_type"].get("exotic:" + ap.type_class(t), 0) + 1
+                return viol, "ambiguous"
     usable = []
     for orc, r in zip(oracles, oracle_results):
         if r is None or "unparsed" in r:
